@@ -1,6 +1,8 @@
 (* The two engines of src/runner.rs, transcribed arm by arm. Definitions only.
-   `sh` = order oracle for HashMap iteration (see Nodes.v); sites are numbered by node position
-   (outer chain: index; left side of the join at index i: 1000*(i+1)+j; right: 2000*(i+1)+j). *)
+   `sh` = order oracle for HashMap iteration (see Nodes.v). A site identifies one map of a run:
+   sites count the BARRIER nodes met so far (Source / Stateless / Materialized nodes do not count,
+   so fusing or dropping such nodes does not renumber anything); the left side of the join with
+   site i uses sites 1000*(i+1)+j, the right side 2000*(i+1)+j. *)
 From Coq Require Import List ZArith Bool Arith.
 From IB Require Import Engine.Val Engine.Ops Engine.AMap Engine.Nodes Combiners.Lawful.
 Import ListNotations.
@@ -84,6 +86,12 @@ Section Exec.
                              (cg_merge (vc_A c) (vc_c c) [cg_local (vc_A c) (vc_c c) lifted (snd p)]))
     else Panic.
 
+  Definition next_site (i : nat) (b : bnode) : nat :=
+    match b with
+    | BSource _ | BStateless _ | BMaterialized _ _ => i
+    | BGroupByKey _ _ | BCombineValues _ _ _ _ _ | BCombineGlobal _ _ _ _ _ => S i
+    end.
+
   (* `buf.take().unwrap()` *)
   Definition take (buf : option part) : outcome part :=
     match buf with Some p => Ok p | None => Panic end.
@@ -114,7 +122,7 @@ Section Exec.
     | [] => Ok buf
     | SNestedCoGroup :: _ => Err E_NESTED_COGROUP
     | SB b :: r =>
-        obind (seq_bnode site 0%nat true b buf) (fun p => seq_sub (S site) r (Some p))
+        obind (seq_bnode site 0%nat true b buf) (fun p => seq_sub (next_site site b) r (Some p))
     end.
   (* run_subplan_seq: `Ok(vec![curr.unwrap()])` *)
   Definition run_subplan_seq (site : nat) (chain : list snode) : outcome part :=
@@ -133,7 +141,8 @@ Section Exec.
     : outcome (option part) :=
     match chain with
     | [] => Ok buf
-    | NB b :: r => obind (seq_bnode i term false b buf) (fun p => seq_main (S i) term r (Some p))
+    | NB b :: r =>
+        obind (seq_bnode i term false b buf) (fun p => seq_main (next_site i b) term r (Some p))
     | NCoGroup lc rc kind tl tr tout :: r =>
         obind (run_subplan_seq (1000 * S i) lc) (fun lp =>
         obind (run_subplan_seq (2000 * S i) rc) (fun rp =>
@@ -178,12 +187,12 @@ Section Exec.
     match chain with
     | [] => Ok curr
     | SNestedCoGroup :: _ => Err E_NESTED_COGROUP
-    | SB b :: r => obind (par_bnode site b curr) (par_sub_rest (S site) r)
+    | SB b :: r => obind (par_bnode site b curr) (par_sub_rest (next_site site b) r)
     end.
   Definition run_subplan_par (site : nat) (chain : list snode) (partitions : nat)
     : outcome (list part) :=
     match chain with
-    | SB (BSource s) :: rest => par_sub_rest (S site) rest (source_parts s partitions)
+    | SB (BSource s) :: rest => par_sub_rest site rest (source_parts s partitions)
     | _ => Err E_NO_SOURCE
     end.
 
@@ -191,7 +200,7 @@ Section Exec.
     : outcome (list part) :=
     match chain with
     | [] => Ok curr
-    | NB b :: r => obind (par_bnode i b curr) (par_main (S i) partitions r)
+    | NB b :: r => obind (par_bnode i b curr) (par_main (next_site i b) partitions r)
     | NCoGroup lc rc kind tl tr tout :: r =>
         obind (run_subplan_par (1000 * S i) lc partitions) (fun lps =>
         obind (run_subplan_par (2000 * S i) rc partitions) (fun rps =>
@@ -206,7 +215,7 @@ Section Exec.
   Definition exec_par (term : tag) (chain : list node) (partitions : nat) : outcome (list val) :=
     match chain with
     | NB (BSource s) :: rest =>
-        obind (par_main 1 partitions rest (source_parts s partitions)) (collect_parts term)
+        obind (par_main 0 partitions rest (source_parts s partitions)) (collect_parts term)
     | _ => Err E_NO_SOURCE
     end.
 End Exec.
